@@ -233,6 +233,14 @@ func TestC20_engines(t *testing.T) {
 			gc, _ = gen.Play(t, gen.Synth(t), 6, gen.DrawPolicy(t))
 		case 1:
 			gc, _ = gen.Play(t, matingEnding(t), 10, gen.DrawPolicy(t))
+		case 2:
+			// extremes of what the heuristics count: a queen with all lines open and captures at their
+			// ends; boards with very many moves
+			st := gen.QueenStar(t)
+			if rapid.IntRange(0, 5).Draw(t, "manymoves") == 0 {
+				st = gen.ManyMoves(t)
+			}
+			gc, _ = gen.Play(t, st, rapid.IntRange(0, 1).Draw(t, "plies"), gen.DrawPolicy(t))
 		default:
 			gc, _ = gen.Game(t, 40)
 		}
